@@ -6,14 +6,25 @@ use crate::types::*;
 use serde_json::{json, Value};
 
 pub mod c01;
+pub mod c03;
+pub mod c07;
+pub mod hist_props;
 
 pub fn all_ids() -> Vec<&'static str> {
-    vec!["C01"]
+    vec!["C01", "C02", "C03", "C04", "C05", "C06", "C07", "C14", "C17"]
 }
 
 pub fn get(id: &str) -> Option<Box<dyn Prop>> {
     match id {
         "C01" => Some(Box::new(c01::C01)),
+        "C02" => Some(Box::new(hist_props::c02())),
+        "C03" => Some(Box::new(c03::prop())),
+        "C04" => Some(Box::new(hist_props::c04())),
+        "C05" => Some(Box::new(hist_props::c05())),
+        "C06" => Some(Box::new(hist_props::C06)),
+        "C07" => Some(Box::new(c07::C07)),
+        "C14" => Some(Box::new(hist_props::c14())),
+        "C17" => Some(Box::new(hist_props::c17())),
         _ => None,
     }
 }
